@@ -8,6 +8,7 @@ import (
 	"fmt"
 	"os"
 	"sort"
+	"strings"
 	"testing"
 	"time"
 
@@ -614,6 +615,7 @@ type c18mEvent struct {
 	node int
 	pod  *c18Pod
 	res  bool
+	pass int // Evict: 0 node pass, 1 prod pass, -1 unknown (read from the eviction reason; used to NAME a failure only)
 }
 
 type c18mRec struct {
@@ -642,7 +644,14 @@ func (e *c18mEvictor) Evict(ctx context.Context, pod *corev1.Pod, opts framework
 		e.rec.evs = append(e.rec.evs, c18mEvent{kind: 3, node: -1, pod: &c18Pod{id: -1, node: -1}})
 		return false
 	}
-	e.rec.evs = append(e.rec.evs, c18mEvent{kind: 3, node: p.node, pod: p, res: p.evictOK})
+	pass := -1
+	switch {
+	case strings.Contains(opts.Reason, ", prod "):
+		pass = 1
+	case strings.Contains(opts.Reason, ", node "):
+		pass = 0
+	}
+	e.rec.evs = append(e.rec.evs, c18mEvent{kind: 3, node: p.node, pod: p, res: p.evictOK, pass: pass})
 	if p.evictOK {
 		e.gone[p] = true
 	}
@@ -982,6 +991,7 @@ func TestVerifC18Pools(t *testing.T) {
 			}
 			est, pest := map[int][3]int64{}, map[int][3]int64{}
 			moved := map[int]int{}
+			movedInPass := [2]map[int]bool{{}, {}} // node -> something was moved away from it in a node pass / prod pass of an EARLIER pool of this call
 			for _, nd := range measured {
 				est[nd.id], pest[nd.id] = nd.usage, nd.prodUsage
 			}
@@ -1007,6 +1017,7 @@ func TestVerifC18Pools(t *testing.T) {
 			seenNodeInSeg := map[int]int{} // node -> number of segments that evicted from it
 			for _, sg := range segs {
 				segNodes := map[int]bool{}
+				movedHere := [2]map[int]bool{{}, {}}
 				for _, e := range sg.body {
 					if e.kind != 3 {
 						continue
@@ -1068,6 +1079,17 @@ func TestVerifC18Pools(t *testing.T) {
 						case moved[nd.id] == 0:
 							h.Fail("C18:evict-not-over-high", "round %d: pod %d evicted from node %d whose measured usage %v / prod %v is above no high threshold that applies to it (%v)",
 								rd, p.id, nd.id, est[nd.id], pest[nd.id], highs)
+						// which defect lets a drained node be balanced again (names the failure; all of them are failures):
+						case movedInPass[0][nd.id] && userSelectorless:
+							// drained in a NODE pass, so it is in processedNodes: only a pool without selector that ignores them takes it
+							h.Fail("C18:evict-after-relieved:user-pool-without-selector", "%s", what)
+						case movedInPass[0][nd.id]:
+							h.Fail("C18:evict-after-relieved", "%s", what)
+						case movedInPass[1][nd.id] && userSelectorless && len(sg.ids) == len(all):
+							h.Fail("C18:evict-after-relieved:user-pool-without-selector", "%s", what)
+						case movedInPass[1][nd.id]:
+							h.Fail("C18:evict-after-relieved:prod-source-not-marked-processed", "%s", what)
+						// the pass of the earlier evictions is unknown (eviction reason not understood): by the shape of the document
 						case !nodeLevelSource:
 							// the node was never over a node-level high threshold: everything moved away from it went in prod passes
 							h.Fail("C18:evict-after-relieved:prod-source-not-marked-processed", "%s", what)
@@ -1082,6 +1104,9 @@ func TestVerifC18Pools(t *testing.T) {
 					if e.res && p.hasMetric && !counted[p] {
 						counted[p] = true
 						moved[nd.id]++
+						if e.pass >= 0 {
+							movedHere[e.pass][nd.id] = true
+						}
 						q := [3]int64{p.m[0], p.m[1], 1}
 						u, pu := est[nd.id], pest[nd.id]
 						for d := 0; d < 3; d++ {
@@ -1093,6 +1118,11 @@ func TestVerifC18Pools(t *testing.T) {
 						est[nd.id], pest[nd.id] = u, pu
 					} else if e.res {
 						counted[p] = true
+					}
+				}
+				for k := 0; k < 2; k++ {
+					for id := range movedHere[k] {
+						movedInPass[k][id] = true
 					}
 				}
 			}
